@@ -6,6 +6,16 @@ ALL = [f"C{i:02d}" for i in range(1, 21)]
 
 # id -> (category, technique, text, note, design_ref)
 CHECKS = {
+    "C06": ("exploration",
+            "bounded-exhaustive enumeration of small tours x jobs x positions on the real evaluator against an independent step-by-step simulator",
+            "Every visiting sequence of <= 4 (quick) / 6 (thorough) tasks over 14 task templates (static and shipment demand, point/two/late windows, two places, service 0/5) with every place and window choice on 6 vehicles (closed/open, loose/tight end, capacity 1/2, a start interval with three departures) that the simulator finds feasible is built on the real types; every outside job is evaluated at every leg (Concrete) and with Any (exhaustive legs, best selector). Soundness: a Success, applied exactly as the library applies it, must simulate feasible. Completeness (single-task jobs): if the simulator finds any feasible (position, place, window), Any must succeed.",
+            "4 locations with an integral asymmetric matrix; single-dimensional load; feasibility judged at the tour's current departure time.",
+            "DESIGN.md section 5 C06"),
+    "C20": ("exploration",
+            "bounded-exhaustive enumeration of successful insertion quotes, each carried out through the public heuristic and compared with the realised fitness change",
+            "Over the C06 tour space (<= 3/4 visits), for each of 5 single-layer goals (unassigned, tours, distance, value, cost) every successful quote at every leg is applied through InsertionHeuristic::process with a one-shot evaluator and fitness(after) - fitness(before) is compared with the quote exactly (integral world); the cheapest quote must be the cheapest realised change; the cost objective is only judged when the simulator sees no waiting before and after.",
+            "Problems without breaks/reloads; earliest departure only; 'before' counts the job as unassigned.",
+            "DESIGN.md section 5 C20"),
     "C19": ("model_checking",
             "exhaustive enumeration of operation histories on the real GSOM network with a well-formedness invariant evaluated after every step",
             "Every history of length 4/5 over {store_batch(1..3), smooth, compact, set_learning_rate} x 5 input families (clusters, exact duplicates, far outlier, constant, collinear) x 32/64 network configurations x 2/3 random-answer policies is executed on the real Network (harness input/storage types); key==coordinate, unique coordinates, finite weights of input dimension, node capacity, find(), finite error measures, compaction rules are judged after construction and after every step. The real Rosomaxa population is streamed and observed through NetworkState; weight vectors of real VRP individuals (incl. the solution without tours) must be finite and of constant dimension.",
